@@ -109,6 +109,16 @@ type lockInfo struct {
 	before map[ssa.Instruction]lockset // lockset immediately before each instruction
 	exit   lockset                     // meet over returns (after deferred unlocks)
 	deferU map[string]bool             // locks with a deferred unlock
+	nAcq   int                         // lock acquisitions in the function
+	leaks  []lockLeak                  // returns reached with a lock that this function acquired and did not release
+}
+
+// lockLeak: a return that some path reaches with a lock still held that the function itself acquired (and whose
+// unlock is not deferred).
+type lockLeak struct {
+	ret  *ssa.Return
+	lock string
+	at   ssa.Instruction // the acquisition
 }
 
 type lockAnalysis struct {
@@ -401,6 +411,89 @@ func (la *lockAnalysis) analyse(f *ssa.Function) *lockInfo {
 			for _, i := range b.Instrs {
 				li.before[i] = lockset{}
 			}
+		}
+	}
+	// may-hold analysis of the locks this function acquires itself (union at joins): a lock that can still be held
+	// at a return, and whose unlock is not deferred, is leaked on that path
+	{
+		type acq map[string]ssa.Instruction
+		mIn := map[*ssa.BasicBlock]acq{f.Blocks[0]: {}}
+		mOut := map[*ssa.BasicBlock]acq{}
+		step := func(b *ssa.BasicBlock, s acq, atRet func(*ssa.Return, acq)) acq {
+			o := acq{}
+			for k, v := range s {
+				o[k] = v
+			}
+			for _, i := range b.Instrs {
+				if c, ok := i.(*ssa.Call); ok {
+					if op, ok := lockOpOf(&c.Call); ok {
+						switch op.kind {
+						case "Lock", "RLock":
+							o[op.id] = i
+						case "Unlock", "RUnlock":
+							delete(o, op.id)
+						}
+					}
+				}
+				if r, ok := i.(*ssa.Return); ok && atRet != nil {
+					atRet(r, o)
+				}
+			}
+			return o
+		}
+		for iter := 0; iter < 100; iter++ {
+			changed := false
+			for _, b := range f.Blocks {
+				if !have[b] {
+					continue
+				}
+				m := acq{}
+				for k, v := range mIn[b] {
+					m[k] = v
+				}
+				for _, pr := range b.Preds {
+					if !have[pr] || la.prunedE[[2]*ssa.BasicBlock{pr, b}] {
+						continue
+					}
+					for k, v := range mOut[pr] {
+						if _, ok := m[k]; !ok {
+							m[k] = v
+						}
+					}
+				}
+				if len(m) != len(mIn[b]) {
+					mIn[b] = m
+					changed = true
+				}
+				o := step(b, m, nil)
+				if len(o) != len(mOut[b]) || mOut[b] == nil {
+					mOut[b] = o
+					changed = true
+				}
+			}
+			if !changed {
+				break
+			}
+		}
+		instrsOf(f, func(i ssa.Instruction) {
+			if c, ok := i.(*ssa.Call); ok {
+				if op, ok := lockOpOf(&c.Call); ok && (op.kind == "Lock" || op.kind == "RLock") {
+					li.nAcq++
+				}
+			}
+		})
+		li.leaks = nil
+		for _, b := range f.Blocks {
+			if !have[b] || b == f.Recover {
+				continue
+			}
+			step(b, mIn[b], func(r *ssa.Return, held acq) {
+				for k, at := range held {
+					if !li.deferU[k] {
+						li.leaks = append(li.leaks, lockLeak{r, k, at})
+					}
+				}
+			})
 		}
 	}
 	return li
